@@ -289,17 +289,17 @@ func checkFlagType(c *vf.Ctx, ft *flagType) {
 				})
 			}
 			// no token that is not a named bit (a lone NONE/empty marker is allowed when no named bit is set)
-			foreign := ""
+			foreign, hasForeign := "", false
 			for _, t := range toks {
 				ok := false
 				for _, nb := range ft.bits {
 					ok = ok || ft.tokenMatches(t, nb)
 				}
 				if !ok && !(!anySet && len(toks) == 1 && (norm(t) == "none" || norm(t) == "")) {
-					foreign = t
+					foreign, hasForeign = t, true
 				}
 			}
-			a.check(base+"only-named-set-bits", foreign == "", func() string {
+			a.check(base+"only-named-set-bits", !hasForeign, func() string {
 				return fmt.Sprintf("%s on %s = %q: token %q is not the name of any declared bit", ft.callDesc, hexw(w), toks, foreign)
 			})
 			if ft.alpha {
